@@ -8,7 +8,8 @@ SPEC = {
     'explanation': "Contract-based deduction cannot decide SQL: the bodies of the SqliteMap accessors are query strings executed by an external engine. Deductive part (small): both map classes select their metric through the same BaseMap setter (one consistent quintuple of callables). Bounded (deciding part): per accessor an abstract-view contract evaluated on both backends loaded with the same integer-labelled graph (size, labels, coordinates, neighbours without the in-memory self entry, edge neighbours, full edge listing, bounding box, box-restricted node listing) and the same edge-based matcher with unbounded initial radius on either.",
     'assumptions': ["SQLite itself", "edge ids: collisions are searched on one large import per run (birthday bound, see the edge-identity suite) and at labels around zero, not excluded for all label sets",
                     "duplicate entries of a neighbour list are compared as sets"],
-    'deductive': [("BaseMap.use_latlon setter / __init__ (shared metric selection)", 'setter', r'.')],
+    'deductive': [("BaseMap.use_latlon setter / __init__ (shared metric selection)", 'setter', r'.'),
+                  ("in-memory side of the abstract-view contract: InMemMap.nodes_nbrto, InMemMap.edges_nbrto and the default BaseMap.edges_nbrto return exactly what the abstract view of the graph says (sound and complete, with the map's locations, nothing written) - the SQLite side of the same contract is SQL and stays bounded", 'inmem_nbrs', r'(^nbrs:|^enbrs:|no-raise)')],
     'bounded': [
         ('same-graph-in-both-backends', map_suites.case_C12, 600, 20000,
          "integer-labelled graphs of 3-6 nodes incl. self-listed neighbours and one-way edges, planar (75%) or lat-lon; SQLite map filled in bulk, "
